@@ -202,7 +202,7 @@ def vf_eq(eng, st, fr, ins, a):
         if x != x or y != y:
             return 0
         m = max(1.0, abs(x), abs(y))
-        return int(abs(x - y) <= 1e-9 * m)
+        return int(abs(x - y) <= getattr(eng, "tol", 1e-9) * m)
     c = eng.fcmp("oeq", x, y, ir.DOUBLE)
     return c
 
@@ -212,8 +212,8 @@ def _angle_rel(eng, st, a, window):
     if not isinstance(x, SV) and not isinstance(y, SV):
         d = x - y
         if window:
-            return int(abs(d) <= 1e-9)
-        return int(abs(math.remainder(d, 2 * math.pi)) <= 1e-9)
+            return int(abs(d) <= getattr(eng, "tol", 1e-9))
+        return int(abs(math.remainder(d, 2 * math.pi)) <= getattr(eng, "tol", 1e-9))
     from . import angles
     ex, ey = eng.fterm(x, ir.DOUBLE), eng.fterm(y, ir.DOUBLE)
     sn, cs = angles.sincos_term(eng, st, ex - ey)
@@ -244,6 +244,12 @@ def vf_havoc(eng, st, fr, ins, a):
     if k >= len(hv):
         raise Inconclusive("vf_havoc(%d): only %d havocked loop values" % (k, len(hv)))
     return hv[k]
+
+
+@model("vf_tol")
+def vf_tol(eng, st, fr, ins, a):
+    eng.tol = float(a[0])
+    return None
 
 
 @model("vf_havoc_is")
@@ -360,18 +366,39 @@ def vf_d(eng, st, fr, ins, a):
     return 0.0
 
 
+def cut_value(eng, st, term, name):
+    """fresh real standing for `term`; the definition is kept aside (st.user['defs']).  Terms with the same polynomial normal
+    form (z3 simplify, sum of monomials, sorted) share one variable, so that an oracle written independently in the harness and
+    the value computed by the code meet in the same variable exactly when they are the same polynomial."""
+    if z3.is_rational_value(term) or z3.is_const(term):
+        return term
+    try:
+        nf = z3.simplify(term, som=True, sort_sums=True)
+        key = nf.sexpr() if len(term.sexpr()) < 200000 else None
+    except z3.Z3Exception:
+        key = None
+    if key is not None and z3.is_rational_value(nf):
+        return nf
+    tbl = st.user.setdefault("cut_nf", {})
+    if key is not None and key in tbl:
+        return tbl[key]
+    f = eng.fresh(name, z3.RealSort())
+    st.user.setdefault("defs", []).append(f == term)
+    if key is not None:
+        tbl[key] = f
+    return f
+
+
 def _cut(eng, st, a, ty):
     p, n = a[0], a[1]
     name = _name(eng, st, a[2])
     if eng.assignment is not None or eng.fmode == "fp":
         return None
-    defs = st.user.setdefault("defs", [])
     for i in range(n):
         addr = p + i * ty.size
         v = eng.load(st, addr, ty)
         if isinstance(v, SV):
-            f = z3.Real("%s!%d_%d" % (name, st.pid, i)) if False else eng.fresh(name + "_%d" % i, z3.RealSort())
-            defs.append(f == v.e)
+            f = cut_value(eng, st, v.e, name + "_%d" % i)
             eng.store(st, addr, ty, SV(f))
     return None
 
@@ -829,8 +856,7 @@ def cut_cells(eng, st, addr, n, ty, name):
         a = addr + i * ty.size
         v = eng.load(st, a, ty)
         if isinstance(v, SV):
-            f = eng.fresh(name + "_%d" % i, z3.RealSort())
-            defs.append(f == v.e)
+            f = cut_value(eng, st, v.e, name + "_%d" % i)
             eng.store(st, a, ty, SV(f))
             out.append(f)
         else:
